@@ -1,5 +1,7 @@
 #!/usr/bin/env python3
-"""PROTOTYPE (feasibility probe): LLVM IR (rustc, textual) -> C for CBMC, with explicit unwinding.
+"""Engine L translator: LLVM IR (rustc, textual) -> C for CBMC, with explicit unwinding.
+
+Generic, knows nothing about micromap.  Usage as a library: T = Translator(ir_text); T.emit(entry).
 
 unwinding model: global flag __unw.  A panic entry point sets it and returns; every call site
 checks it: `invoke` branches to its landing pad, plain `call` returns from the frame.
@@ -279,7 +281,12 @@ def const_items(M, ty, p, off, items):
 
 
 class Function:
-    def __init__(s, name, ret, params): s.name, s.ret, s.params, s.blocks = name, ret, params, []
+    def __init__(s, name, ret, params): s.name, s.ret, s.params, s.blocks, s.raw = name, ret, params, [], None
+
+    def parse(s):
+        if s.raw is not None:
+            parse_body(s, s.raw)
+            s.raw = None
 
 
 class Block:
@@ -334,7 +341,7 @@ def parse_module(text):
             while lines[i].rstrip() != '}':
                 body.append(lines[i]); i += 1
             i += 1
-            parse_body(fn, body)
+            fn.raw = body
             M.funcs.append(fn)
             continue
         m = re.match(r'^(%(?:"(?:[^"\\]|\\.)*"|[-a-zA-Z$._0-9]+)) = type (.*)$', ln)
@@ -534,6 +541,8 @@ class FGen:
             if bits > 64:
                 iv &= (1 << 128) - 1
                 return '((((unsigned __int128)%dULL) << 64) | (unsigned __int128)%dULL)' % (iv >> 64, iv & ((1 << 64) - 1))
+            if bits not in (8, 16, 32, 64) and bits > 1:
+                iv &= (1 << bits) - 1
             if iv < 0:
                 return '((%s)%dLL)' % (ct, iv)
             return '((%s)%dULL)' % (ct, iv)
@@ -725,12 +734,23 @@ class FGen:
             if p.peek()[1] in ('volatile', 'atomic'): p.next()
             ty = p.ty(); p.expect(',')
             pt, ptr = self.tyop(p)
+            rt = self.M.resolve(ty)
+            if isinstance(rt, IntTy) and rt.bits not in (1, 8, 16, 32, 64, 128):
+                nb = (rt.bits + 7) // 8
+                d = self.var(dst, ty)
+                E('{ %s t_ = 0; memcpy(&t_, %s, %d); %s = t_ & (((%s)1 << %d) - 1); }' % (self.G.cty(ty), ptr, nb, d, self.G.cty(ty), rt.bits))
+                return
             E('%s = *(%s*)%s;' % (self.var(dst, ty), self.G.cty(ty), ptr))
             return
         if op == 'store':
             if p.peek()[1] in ('volatile', 'atomic'): p.next()
             ty, val = self.tyop(p); p.expect(',')
             pt, ptr = self.tyop(p)
+            rt = self.M.resolve(ty)
+            if isinstance(rt, IntTy) and rt.bits not in (1, 8, 16, 32, 64, 128):
+                nb = (rt.bits + 7) // 8
+                E('{ %s t_ = %s; memcpy(%s, &t_, %d); }' % (self.G.cty(ty), val, ptr, nb))
+                return
             E('*(%s*)%s = %s;' % (self.G.cty(ty), ptr, val))
             return
         if op == 'getelementptr':
@@ -743,9 +763,14 @@ class FGen:
             a = self.operand(p, ty); p.expect(','); c = self.operand(p, ty)
             ct = self.G.cty(ty)
             bits = self.M.resolve(ty).bits
+            native = bits in (8, 16, 32, 64, 128)
             cop = {'add': '+', 'sub': '-', 'mul': '*', 'udiv': '/', 'urem': '%', 'and': '&', 'or': '|', 'xor': '^',
                    'shl': '<<', 'lshr': '>>'}.get(op)
-            if cop:
+            if not native and bits > 1 and op in ('ashr', 'sdiv', 'srem'):
+                if bits > 64: raise NotImplementedError('signed op on i%d' % bits)
+                a, c = 'VF_SEXT64(%s,%d)' % (a, bits), ('VF_SEXT64(%s,%d)' % (c, bits) if op != 'ashr' else c)
+                e = '(%s)((int64_t)%s %s (int64_t)%s)' % (ct, a, {'ashr': '>>', 'sdiv': '/', 'srem': '%'}[op], c)
+            elif cop:
                 e = '(%s)((%s)%s %s (%s)%s)' % (ct, ct, a, cop, ct, c)
             elif op == 'ashr':
                 e = '(%s)((%s)%s >> %s)' % (ct, sgn(ct), a, c)
@@ -753,6 +778,8 @@ class FGen:
                 e = '(%s)((%s)%s %s (%s)%s)' % (ct, sgn(ct), a, '/' if op == 'sdiv' else '%', sgn(ct), c)
             if bits == 1:
                 e = '((%s) & 1)' % e
+            elif not native:
+                e = '((%s) & ((((%s)1) << %d) - 1))' % (e, ct, bits)
             E('%s = %s;' % (self.var(dst, ty), e))
             return
         if op == 'icmp':
@@ -764,7 +791,12 @@ class FGen:
             if isinstance(self.M.resolve(ty), PtrTy):
                 a, c = '(uint64_t)' + a, '(uint64_t)' + c
             elif pred[0] == 's':
-                st = sgn(self.G.cty(ty)); a, c = '(%s)%s' % (st, a), '(%s)%s' % (st, c)
+                bits = self.M.resolve(ty).bits
+                if bits not in (8, 16, 32, 64, 128):
+                    if bits > 64: raise NotImplementedError('signed compare on i%d' % bits)
+                    a, c = 'VF_SEXT64(%s,%d)' % (a, bits), 'VF_SEXT64(%s,%d)' % (c, bits)
+                else:
+                    st = sgn(self.G.cty(ty)); a, c = '(%s)%s' % (st, a), '(%s)%s' % (st, c)
             E('%s = (%s %s %s);' % (self.var(dst, IntTy(1)), a, cop, c))
             return
         if op in ('zext', 'trunc', 'ptrtoint', 'inttoptr', 'bitcast', 'sext', 'freeze', 'addrspacecast'):
@@ -777,11 +809,17 @@ class FGen:
                 sb = self.M.resolve(st).bits
                 if sb == 1:
                     x = '(%s ? -1 : 0)' % x
+                elif sb not in (8, 16, 32, 64, 128):
+                    if sb > 64: raise NotImplementedError('sext from i%d' % sb)
+                    x = 'VF_SEXT64(%s,%d)' % (x, sb)
                 else:
                     x = '(%s)(%s)%s' % (sgn(self.G.cty(dt)), sgn(self.G.cty(st)), x)
             e = '(%s)%s' % (self.G.cty(dt), x)
-            if op == 'trunc' and self.M.resolve(dt).bits == 1:
+            db = getattr(self.M.resolve(dt), 'bits', 64)
+            if op == 'trunc' and db == 1:
                 e = '(%s & 1)' % x
+            elif op in ('trunc', 'sext', 'ptrtoint', 'bitcast') and db not in (8, 16, 32, 64, 128):
+                e = '((%s) & ((((%s)1) << %d) - 1))' % (e, self.G.cty(dt), db)
             E('%s = %s;' % (self.var(dst, dt), e))
             return
         if op == 'select':
@@ -925,6 +963,16 @@ class FGen:
             if op == 'invoke':
                 E(self.goto(b.label, normal))
             return
+        if bare in ('vf_check_c', 'vf_reach_c') and op == 'call':
+            idx = 1 if bare == 'vf_check_c' else 0
+            mm = re.fullmatch(r'\(\(uint32_t\)(\d+)ULL\)', a[idx])
+            if mm:
+                if bare == 'vf_check_c':
+                    E('__CPROVER_assert(%s, "VF:%s");' % (a[0], mm.group(1)))
+                else:
+                    E('VF_REACH_SITE(%s);' % mm.group(1))
+                self.G.ids.setdefault(self.fn.name, set()).add((bare, int(mm.group(1))))
+                return
         if name[0] == '%':
             # indirect call
             fty = '%s (*)(%s)' % (self.G.cty(rty), ', '.join(self.G.cty(x[0]) for x in args) or 'void')
@@ -943,127 +991,253 @@ class FGen:
             E('if (__unw) ' + self.ret_default())
 
 
-PRELUDE = r'''
+
+PRELUDE = r"""
 #include <stdint.h>
 #include <stddef.h>
 #include <string.h>
-int __unw = 0;        /* 1 while a panic is propagating */
-int __aborted = 0;
-unsigned __panics = 0;
+extern int __unw;
+extern unsigned __panics;
 uint64_t __VERIFIER_nondet_u64(void);
 static inline uint64_t __undef_u64(void) { return __VERIFIER_nondet_u64(); }
-'''
+#define VF_SEXT64(x,b) ((int64_t)((uint64_t)(x) << (64-(b))) >> (64-(b)))
+unsigned char *vf_alloc_stub(uint64_t size);
+#ifdef VF_REACH
+#define VF_REACH_SITE(id) __CPROVER_assert(0, "REACH:" #id)
+#else
+#define VF_REACH_SITE(id) ((void)0)
+#endif
+"""
 
 
 def is_panic_entry(name):
     n = name
     return ('9panicking' in n and ('panic' in n or 'assert_failed' in n)) or 'slice_index_fail' in n or \
         'expect_failed' in n or 'unwrap_failed' in n or 'slice_start_index_len_fail' in n or 'slice_end_index_len_fail' in n \
-        or 'slice_index_order_fail' in n or 'panic_const' in n or '_index_len_fail' in n
+        or 'slice_index_order_fail' in n or 'panic_const' in n or '_index_len_fail' in n or 'panic_bounds_check' in n \
+        or 'copy_from_slice' in n and 'len_mismatch_fail' in n or 'begin_panic' in n or n.endswith('rust_begin_unwind') \
+        or 'rust_panic' in n and 'rust_panic_' not in n
 
 
 def is_alloc_entry(name):
-    return bool(re.search(r'__rust_(alloc|dealloc|realloc|alloc_zeroed)|__rdl_|__rg_', name))
+    return bool(re.search(r'__rust_(alloc|dealloc|realloc|alloc_zeroed|no_alloc_shim)|__rdl_|__rg_|__rustc.*__rust_(alloc|dealloc|realloc)|handle_alloc_error', name))
 
 
 def is_abort_entry(name):
-    return 'panic_in_cleanup' in name or 'panic_cannot_unwind' in name or 'panic_nounwind' in name
+    return 'panic_in_cleanup' in name or 'panic_cannot_unwind' in name or 'panic_nounwind' in name or \
+        name in ('@abort',) or 'process5abort' in name
+
+
+def demangle(sym):
+    """legacy rustc mangling -> readable path (best effort); other names returned unchanged"""
+    s = sym[1:] if sym[:1] == '@' else sym
+    s = s.strip('"')
+    if not s.startswith('_ZN'):
+        return s
+    i, parts = 3, []
+    while i < len(s) and s[i].isdigit():
+        j = i
+        while s[j].isdigit(): j += 1
+        n = int(s[i:j]); parts.append(s[j:j + n]); i = j + n
+    if parts and re.fullmatch(r'h[0-9a-f]{16}', parts[-1]):
+        parts.pop()
+    out = '::'.join(parts)
+    for a, b in (('$LT$', '<'), ('$GT$', '>'), ('$u20$', ' '), ('$RF$', '&'), ('$BP$', '*'), ('$C$', ','), ('$LP$', '('),
+                 ('$RP$', ')'), ('$u5b$', '['), ('$u5d$', ']'), ('$u7b$', '{'), ('$u7d$', '}'), ('$u3b$', ';'), ('$u2b$', '+'),
+                 ('$u27$', "'"), ('$u21$', '!'), ('..', '::')):
+        out = out.replace(a, b)
+    return out.lstrip('_') if out.startswith('_<') or out.startswith('_$') else out
+
+
+SYMRE = re.compile(r'@(?:"(?:[^"\\\\]|\\\\.)*"|[-a-zA-Z$._0-9]+)')
+
+
+class TranslateError(Exception):
+    pass
+
+
+class Translator:
+    """parse once, emit one closed C translation unit per entry point"""
+
+    def __init__(self, text):
+        self.M = parse_module(text)
+        self.G = CGen(self.M)
+        self.G.used_fns = {}
+        self.G.addr_taken = set()
+        self.G.ids = {}
+        self.byname = {f.name: f for f in self.M.funcs}
+        self.fcache = {}   # name -> (proto, body, refs)
+        self.nstructs_emitted = 0
+
+    def entries(self, prefix='h_'):
+        return sorted(f.name[1:] for f in self.M.funcs if f.name[1:].startswith(prefix))
+
+    def _gen(self, name):
+        if name in self.fcache:
+            return self.fcache[name]
+        fn = self.byname[name]
+        fn.parse()
+        refs = set()
+        for b in fn.blocks:
+            for ins in b.insts:
+                refs.update(SYMRE.findall(ins))
+        save_used, save_addr = self.G.used_fns, self.G.addr_taken
+        self.G.used_fns, self.G.addr_taken = {}, set()
+        try:
+            hdr, lines = FGen(self.G, fn).gen()
+        except (SyntaxError, NotImplementedError, KeyError, IndexError, AttributeError) as e:
+            raise TranslateError('unsupported IR construct: %s' % e)
+        finally:
+            used, addr = self.G.used_fns, self.G.addr_taken
+            self.G.used_fns, self.G.addr_taken = save_used, save_addr
+        fn.blocks = []   # free memory
+        r = (hdr + ';', '\n'.join(lines), refs, used, addr)
+        self.fcache[name] = r
+        return r
+
+    def emit(self, entry):
+        """returns (c_text, info) for the closure of `entry` (symbol without '@')"""
+        M, G = self.M, self.G
+        work = ['@' + entry]
+        reach_f, reach_g, stubs, externs = [], [], set(), {}
+        seen = set()
+        used_all, addr_all = {}, set()
+        while work:
+            s = work.pop()
+            if s in seen:
+                continue
+            seen.add(s)
+            if s.startswith('@llvm.'):
+                continue
+            if is_panic_entry(s) or is_abort_entry(s) or is_alloc_entry(s):
+                stubs.add(s)
+                continue
+            if s in self.byname:
+                proto, body, refs, used, addr = self._gen(s)
+                reach_f.append(s)
+                used_all.update(used); addr_all |= addr
+                work.extend(refs)
+            elif s in M.globals:
+                reach_g.append(s)
+                work.extend(v for k, v in M.globals[s][1] if k in ('name', 'qname') and v[0] == '@')
+            elif s in M.decls:
+                externs[s] = M.decls[s]
+        if ('@' + entry) not in self.byname:
+            raise TranslateError('entry %s not defined in module' % entry)
+        out = [PRELUDE]
+        # globals (need struct defs possibly) -- build first so struct list is complete
+        ginit, gdecl = [], []
+        for g in sorted(reach_g):
+            ty, init = M.globals[g]
+            sz, al = M.size_align(ty)
+            al = max(al, 8 if sz >= 8 else 1)
+            items = []
+            try:
+                const_items(M, ty, P(list(init)), 0, items)
+            except Exception as e:
+                raise TranslateError('unsupported initialiser of %s: %s' % (g, e))
+            data = bytearray(max(sz, 1))
+            for it in items:
+                if it[0] == 'b':
+                    data[it[1]:it[1] + len(it[2])] = it[2]
+            cn = G.cname(g)
+            if any(data):
+                gdecl.append('unsigned char %s[%d] __attribute__((aligned(%d))) = {%s};' % (cn, len(data), al, ','.join(str(b) for b in data)))
+            else:
+                gdecl.append('unsigned char %s[%d] __attribute__((aligned(%d)));' % (cn, len(data), al))
+            for it in items:
+                if it[0] == 'p':
+                    tgt = it[2]
+                    amp = '' if tgt in M.globals else '&'
+                    ginit.append('  *(unsigned char**)(%s + %d) = ((unsigned char*)%s%s) + %d;' % (cn, it[1], amp, G.cname(tgt), it[3]))
+                    if tgt not in M.globals:
+                        addr_all.add(tgt)
+                        if tgt in self.byname and tgt not in seen:
+                            raise TranslateError('internal: function %s referenced from global only' % tgt)
+        # stub / extern prototypes
+        decl_lines = []
+        ext_names = []
+        def sig(name):
+            if name in self.byname:
+                f = self.byname[name]
+                return f.ret, [t for t, _ in f.params]
+            if name in M.decls:
+                d = M.decls[name]
+                return d[0], d[1]
+            if name in used_all:
+                return used_all[name]
+            return None
+        for name in sorted(stubs):
+            sg = sig(name)
+            if sg is None:
+                continue
+            ret, ptys = sg
+            cn = G.cname(name)
+            params = ', '.join('%s a%d' % (G.cty(t), i) for i, t in enumerate(ptys)) or 'void'
+            isvoid = isinstance(M.resolve(ret), VoidTy)
+            if is_abort_entry(name):
+                decl_lines.append('%s %s(%s) { __CPROVER_assert(0, "ABORT: process abort reached"); __CPROVER_assume(0); }' % (G.cty(ret), cn, params))
+            elif is_alloc_entry(name):
+                if isinstance(M.resolve(ret), PtrTy):
+                    decl_lines.append('%s %s(%s) { return vf_alloc_stub(%s); }' % (G.cty(ret), cn, params, 'a0' if ptys else '1'))
+                else:
+                    decl_lines.append('%s %s(%s) { __CPROVER_assert(0, "ALLOC: allocator called"); %s}' % (
+                        G.cty(ret), cn, params, '' if isvoid else 'return (%s)0; ' % G.cty(ret)))
+            else:
+                decl_lines.append('%s %s(%s) { __unw = 1; __panics++; %s}' % (
+                    G.cty(ret), cn, params, '' if isvoid else 'return __dflt_%s(); ' % re.sub(r'\W', '_', G.cty(ret))))
+        for name in sorted(externs):
+            ret, ptys, va = externs[name]
+            cn = G.cname(name)
+            params = ', '.join('%s a%d' % (G.cty(t), i) for i, t in enumerate(ptys)) or 'void'
+            decl_lines.append('%s %s(%s); /* external */' % (G.cty(ret), cn, params))
+            ext_names.append(name[1:].strip('"'))
+        protos, bodies = [], []
+        for f in reach_f:
+            proto, body, _, _, _ = self.fcache[f]
+            protos.append(proto); bodies.append(body)
+        out += G.struct_defs
+        for key, cn in G.structs.items():
+            out.append('static inline %s __dflt_%s(void) { %s x; return x; }' % (cn, cn, cn))
+            out.append('static inline %s __undef_%s(void) { %s x; return x; }' % (cn, cn, cn))
+        for ct in ('uint8_t', 'uint16_t', 'uint32_t', 'uint64_t', 'unsigned char', 'unsigned char*', 'unsigned __int128'):
+            out.append('static inline %s __dflt_%s(void) { return (%s)__VERIFIER_nondet_u64(); }' % (ct, re.sub(r'\W', '_', ct), ct))
+        out += gdecl
+        out += protos
+        out += decl_lines
+        out.append('void __vf_init_globals(void) {')
+        out += ginit
+        out.append('}')
+        out += bodies
+        en = G.cname('@' + entry)
+        out.append('void m_%s(void) {' % en)
+        out.append('  __vf_init_globals();')
+        out.append('  %s();' % en)
+        out.append('  __CPROVER_assert(!__unw, "ESCAPE: panic escaped the harness");')
+        out.append('}')
+        ids = set()
+        for f in reach_f:
+            ids |= self.G.ids.get(f, set())
+        info = {
+            'functions': sorted(demangle(f) for f in reach_f),
+            'n_functions': len(reach_f),
+            'stubs': sorted(demangle(x) for x in stubs),
+            'externs': sorted(ext_names),
+            'globals': len(reach_g),
+            'check_ids': sorted(i for k, i in ids if k == 'vf_check_c'),
+            'reach_ids': sorted(i for k, i in ids if k == 'vf_reach_c'),
+            'c_entry': 'm_' + en,
+        }
+        return '\n'.join(out) + '\n', info
 
 
 def main():
-    src, dst = sys.argv[1], sys.argv[2]
-    M = parse_module(open(src).read())
-    G = CGen(M)
-    G.used_fns = {}
-    G.addr_taken = set()
-    bodies = []
-    protos = []
-    import os
-    entries = os.environ.get('ENTRY')
-    if entries:
-        byname = {f.name: f for f in M.funcs}
-        work = ['@' + e for e in entries.split(',')]
-        reach_f, reach_g = set(), set()
-        stub_defs = set()
-        symre = re.compile(r'@(?:"(?:[^"\\\\]|\\\\.)*"|[-a-zA-Z$._0-9]+)')
-        while work:
-            s = work.pop()
-            if s in byname and (is_panic_entry(s) or is_abort_entry(s) or is_alloc_entry(s)):
-                stub_defs.add(s)
-            elif s in byname and s not in reach_f:
-                reach_f.add(s)
-                for b in byname[s].blocks:
-                    for ins in b.insts:
-                        work.extend(symre.findall(ins))
-            elif s in M.globals and s not in reach_g:
-                reach_g.add(s)
-                work.extend(v for k, v in M.globals[s][1] if k in ('name', 'qname') and v[0] == '@')
-        for s in stub_defs:
-            f = byname[s]
-            M.decls[s] = (f.ret, [t_ for t_, _ in f.params], False)
-        M.funcs = [f for f in M.funcs if f.name in reach_f]
-        M.globals = {g: v for g, v in M.globals.items() if g in reach_g}
-        print('reachable: %d functions, %d globals' % (len(M.funcs), len(M.globals)))
-    for fn in M.funcs:
-        hdr, lines = FGen(G, fn).gen()
-        protos.append(hdr + ';')
-        bodies.append('\n'.join(lines))
-    out = [PRELUDE]
-    out += G.struct_defs
-    for key, cn in G.structs.items():
-        out.append('static inline %s __dflt_%s(void) { %s x; return x; }' % (cn, cn, cn))
-        out.append('static inline %s __undef_%s(void) { %s x; return x; }' % (cn, cn, cn))
-    for ct in ('uint8_t', 'uint16_t', 'uint32_t', 'uint64_t', 'unsigned char', 'unsigned char*', 'unsigned __int128'):
-        out.append('static inline %s __dflt_%s(void) { return (%s)__VERIFIER_nondet_u64(); }' % (ct, re.sub(r'\W', '_', ct), ct))
-    # globals with their initialisers; relocations are applied by __vf_init_globals()
-    ginit = []
-    gdecl = []
-    for g, (ty, init) in M.globals.items():
-        sz, al = M.size_align(ty)
-        al = max(al, 8 if sz >= 8 else 1)
-        items = []
-        try:
-            const_items(M, ty, P([x for x in init]), 0, items)
-        except Exception as e:
-            raise type(e)('%s\n  in initialiser of %s' % (e, g))
-        data = bytearray(max(sz, 1))
-        for it in items:
-            if it[0] == 'b':
-                data[it[1]:it[1] + len(it[2])] = it[2]
-        cn = G.cname(g)
-        if any(data):
-            gdecl.append('unsigned char %s[%d] __attribute__((aligned(%d))) = {%s};' % (cn, len(data), al, ','.join(str(b) for b in data)))
-        else:
-            gdecl.append('unsigned char %s[%d] __attribute__((aligned(%d)));' % (cn, len(data), al))
-        for it in items:
-            if it[0] == 'p':
-                tgt = it[2]
-                amp = '' if tgt in M.globals else '&'
-                ginit.append('  *(unsigned char**)(%s + %d) = ((unsigned char*)%s%s) + %d;' % (cn, it[1], amp, G.cname(tgt), it[3]))
-                if tgt not in M.globals:
-                    G.addr_taken.add(tgt)
-    out += gdecl
-    defined = {f.name for f in M.funcs}
-    for name, (ret, ptys, va) in M.decls.items():
-        if name.startswith('@llvm.') or (name in defined and not (is_panic_entry(name) or is_abort_entry(name) or is_alloc_entry(name))):
-            continue
-        if name not in G.used_fns and name not in G.addr_taken:
-            continue
-        cn = G.cname(name)
-        params = ', '.join('%s a%d' % (G.cty(t), i) for i, t in enumerate(ptys)) or 'void'
-        if is_abort_entry(name):
-            out.append('%s %s(%s) { __aborted = 1; __CPROVER_assume(0); }' % (G.cty(ret), cn, params))
-        elif is_panic_entry(name):
-            out.append('%s %s(%s) { __CPROVER_assert(!__unw, "panic while unwinding"); __unw = 1; __panics++; }' % (G.cty(ret), cn, params))
-        else:
-            out.append('%s %s(%s); /* external: harness-provided */' % (G.cty(ret), cn, params))
-    out += protos
-    out.append('void __vf_init_globals(void) {')
-    out += ginit
-    out.append('}')
-    out += bodies
-    open(dst, 'w').write('\n'.join(out) + '\n')
-    print('functions:', len(M.funcs), 'decls:', len(M.decls), 'globals:', len(M.globals))
+    src, entry, dst = sys.argv[1], sys.argv[2], sys.argv[3]
+    T = Translator(open(src).read())
+    c, info = T.emit(entry)
+    open(dst, 'w').write(c)
+    import json
+    print(json.dumps(info, indent=1))
 
 
 if __name__ == '__main__':
